@@ -18,6 +18,8 @@ HARNESS_TARGET = os.path.join(CACHE, "target-harness")
 HARNESS_BIN = os.path.join(HARNESS_TARGET, "release", "fp_harness")
 CLI_BIN = os.path.join(HARNESS_TARGET, "release", "fastpasta_cli")
 FPMODEL = os.path.join(OCAML_DIR, "fpmodel")
+BIN_TARGET = os.path.join(CACHE, "target-bin")
+FASTPASTA = os.path.join(BIN_TARGET, "release", "fastpasta")
 GUARD = "crambl_fastpasta_verif"
 NCPU = os.cpu_count() or 4
 
@@ -191,6 +193,49 @@ def step_harness():
     if rc != 0:
         return {"ok": False, "log": (out + err).decode("utf8", "replace")[-6000:], "wall_s": dt}
     return {"ok": True, "wall_s": dt}
+
+
+def step_cli():
+    """(re)build the real `fastpasta` binary from /repo's working tree (release semantics: panic=abort, no overflow
+    checks; LTO off and 16 codegen units to keep the build short), hooks on"""
+    env = base_env()
+    env["CARGO_TARGET_DIR"] = BIN_TARGET
+    rc, out, err, dt = sh(["cargo", "build", "--release", "--offline", "-p", "fastpasta", "--bin", "fastpasta",
+                           "--config", "profile.release.lto=false", "--config", "profile.release.codegen-units=16"],
+                          cwd=REPO, env=env, timeout=2400)
+    if rc != 0:
+        return {"ok": False, "log": (out + err).decode("utf8", "replace")[-6000:], "wall_s": dt}
+    return {"ok": True, "wall_s": dt}
+
+
+def run_cli(args, stdin_bytes=None, timeout=60, env_extra=None):
+    """run the real binary; returns (returncode or -signal, stdout bytes, stderr bytes, wall seconds)"""
+    env = dict(os.environ, RUST_BACKTRACE="1")
+    env.pop("NO_COLOR", None)
+    if env_extra:
+        env.update(env_extra)
+    t0 = time.time()
+    try:
+        p = subprocess.run([FASTPASTA] + list(args), input=stdin_bytes, capture_output=True, timeout=timeout, env=env,
+                           stdin=None if stdin_bytes is not None else subprocess.DEVNULL)
+        return p.returncode, p.stdout, p.stderr, time.time() - t0
+    except subprocess.TimeoutExpired as e:
+        return "TIMEOUT", e.stdout or b"", e.stderr or b"", time.time() - t0
+
+
+def scratch_dir(name):
+    """a scratch directory for input files of CLI runs (tmpfs when available), emptied on creation"""
+    base = "/dev/shm" if os.path.isdir("/dev/shm") else os.path.join(CACHE, "tmp")
+    d = os.path.join(base, "fv_%s_%d" % (name, os.getpid()))
+    shutil.rmtree(d, ignore_errors=True)
+    os.makedirs(d)
+    return d
+
+
+def par_map(fn, items, workers=None):
+    from concurrent.futures import ThreadPoolExecutor
+    with ThreadPoolExecutor(max_workers=workers or NCPU) as ex:
+        return list(ex.map(fn, items))
 
 
 # ------------------------------------------------------------------------------ streams
